@@ -84,7 +84,7 @@ def REQUIRED(tier):
         "case.dist.given": 50 * k,
         "assemble.order.ascending": 30 * k,
         "assemble.order.non-ascending": 20 * k,
-        "case.fragment-atoms-lent": 50 * k,
+        "case.fragment-atoms-lent": 50 * k, "combine-cli.runs": 10 * k, "combine-cli.products": 30 * k,
     }
 
 
@@ -1442,7 +1442,69 @@ def run_assemble_chunk(spec, ctx):
         if diff(s_core0, snap(core)) or any(diff(a, snap(m)) for a, (_, m) in zip(s_subs0, subs)):
             ctx.violation("assemble:inputs-mutated", case=case)
         ctx.count("assemble.inputs-unchanged-checked")
+        if j % 3 == 1 and len(aps) <= 3:
+            run_combine_cli(ctx, comb, case, rng, cs, core, subs, given, seen)
         _flush_counts(ctx)
+
+
+def run_combine_cli(ctx, comb, case, rng, cs, core, subs, given, seen):
+    """the same assembly through the real command (`molli combine`): libraries on disk, labels on the command line; the
+    product stored as core_subA_subB has the k-th substituent at the k-th label named with -a (or, without -a, at the
+    k-th attachment point of the core)"""
+    import itertools
+    import contextlib
+    import io
+    import molli as ml
+
+    d = ctx.tmp / "cli"
+    d.mkdir(exist_ok=True)
+    pc, ps, po = d / "cores.mlib", d / "subs.mlib", d / "out.mlib"
+    for path, items in ((pc, [core]), (ps, [m for _, m in subs[:3]])):
+        lib = ml.MoleculeLibrary(path, readonly=False, overwrite=True)
+        with lib.writing():
+            for m in items:
+                lib[m.name] = m
+    argv = [str(pc), "-s", str(ps), "-o", str(po), "--overwrite", "-m", "permutns"]
+    for lbl in given or []:
+        argv += ["-a", lbl]
+    if given:
+        ap_list = [i for lbl in given for i, a in enumerate(cs["atoms"]) if a["label"] == lbl]
+    else:
+        ap_list = sorted(cs["aps"])          # the core's attachment points in atom order
+    if len(ap_list) > len(subs[:3]):
+        return
+    ctx.count("combine-cli.runs")
+    try:
+        with contextlib.redirect_stdout(io.StringIO()), contextlib.redirect_stderr(io.StringIO()):
+            comb.molli_main(argv)
+    except BaseException as e:  # noqa
+        _report(ctx, case, MON.drain(), seen)
+        if "combine-cli:raises" not in seen:
+            seen.add("combine-cli:raises")
+            ctx.violation(f"combine-cli:raises:{type(e).__name__}", case=case, error=repr(e)[:300], labels_given=given)
+        return
+    _report(ctx, case, MON.drain(), seen, route="combine-cli")
+    out = ml.MoleculeLibrary(po)
+    with out.reading():
+        prods = {k: out[k] for k in out.keys()}
+    byname = {m.name: sp for sp, m in subs[:3]}
+    names = list(byname)
+    want = ["_".join([core.name] + list(p)) for p in itertools.permutations(names, len(ap_list))]
+    if sorted(prods) != sorted(want):
+        ctx.violation("combine-cli:product-names-differ", case=case, expected=sorted(want)[:6], observed=sorted(prods)[:6])
+        return
+    for perm in itertools.permutations(names, len(ap_list)):
+        name = "_".join([core.name] + list(perm))
+        ctx.count("combine-cli.products")
+        ea, eb = expected_assembly(cs, ap_list, [byname[n] for n in perm])
+        sp, oa, ob = observed_assembly(prods[name])
+        # what was written to and read from the library went through float32: only the constitution is compared here
+        if (ea != oa or eb != ob) and "combine-cli:wrong-product" not in seen:
+            seen.add("combine-cli:wrong-product")
+            ctx.violation("combine-cli:product-stored-under-a-name-is-another-molecule", case=case, product=name,
+                          labels_given=given, attachment_atoms=ap_list,
+                          bonds_missing=sorted((eb - ob).elements())[:3], bonds_unexpected=sorted((ob - eb).elements())[:3],
+                          atoms_missing=sorted((ea - oa).elements())[:2])
 
 
 def assembly_geometry(cs, aps, sub_specs, sp):
